@@ -345,7 +345,7 @@ pub fn run_case(case: &Case) -> CaseResult {
 			// are concerned (the state follows two source frames later)
 			let n = case.slice.map(|(a, b)| b - a).unwrap_or(case.decoder.data.len) as f64;
 			let at_tail = pa >= n - 1.0 || pb >= n - 1.0;
-			if !at_tail && (pa - pb).abs() > 1.0 + 1e-6 {
+			if !at_tail && !((pa - pb).abs() <= 1.0 + 1e-6) {
 				res.fail(Violation::new(
 					"static-vs-streaming",
 					"position-differs",
